@@ -28,8 +28,8 @@ ASSUMPTIONS = [
     "for mixed-type sequences only the laws are checked, not a particular inferred dtype",
 ]
 BOUND = {
-    "quick": "sequences of length 0..3 over 28 scalars; explicit dtypes for homogeneous sequences; equal() relation over all pairs of vectors of length <= 2 built from 14 scalars",
-    "thorough": "sequences of length 0..4 over 28 scalars; equal() relation over all pairs of vectors of length <= 2 built from all 28 scalars (vectors reported equal must also hold == values position by position)",
+    "quick": "sequences of length 0..3 over 29 scalars; explicit dtypes for homogeneous sequences; equal() relation over all pairs of vectors of length <= 2 built from 14 scalars",
+    "thorough": "sequences of length 0..4 over 29 scalars; equal() relation over all pairs of vectors of length <= 2 built from all 29 scalars (vectors reported equal must also hold == values position by position)",
 }
 TIME_CAP = {"quick": 240, "thorough": 3000}
 
@@ -67,6 +67,7 @@ SCALARS = {
     "big": 2 ** 53 + 1,
     "i24": 2 ** 24 + 1,      # fits int32, is not a float32
     "1.5": 1.5,
+    "inf": float("inf"),     # not a missing value
     "complex": 1 + 2j,
     "a": "a",
     "empty": "",
@@ -92,7 +93,7 @@ SCALARS = {
 NAMES = list(SCALARS)
 MISSING = {"None", "nan", "npnan"}
 FAMILY = {
-    "True": "bool", "1": "int", "big": "int", "i24": "int", "1.5": "float", "complex": "complex", "a": "str", "empty": "str", "long1": "str", "long2": "str",
+    "True": "bool", "1": "int", "big": "int", "i24": "int", "1.5": "float", "inf": "float", "complex": "complex", "a": "str", "empty": "str", "long1": "str", "long2": "str",
     "date": "date", "datetime": "datetime", "timedelta": "timedelta", "bytes": "bytes",
     "np.int64": "np.int", "np.float64": "np.float", "np.float32": "np.float32", "np.bool": "np.bool", "np.str": "np.str",
     "np.dt64": "np.dt64", "np.NaT": "np.dt64", "np.td64": "np.td64", "dict": "object", "inst": "object", "aloof": "object",
